@@ -393,6 +393,19 @@ func checkC09(c *Check) {
 				})
 				ok := prepared && (firstFill == token.NoPos || prepPos < firstFill)
 				c.Ob("collection-reader-prepares-destination/"+role, name, ok, posStr(g.co.Fset, fi.Decl.Pos()), kind+" destination is re-sliced/reallocated/cleared before elements are decoded into it")
+				// … and on every success path: a return without error before the destination was prepared leaves the
+				// previous content in place (an empty collection read into a used object)
+				early := token.NoPos
+				walkBlock(ir.Body, nil, func(n Node, _ []Guard) {
+					if rt, isR := n.(*ReturnN); isR && successReturn(ir, rt) && prepared && rt.Pos < prepPos && early == token.NoPos {
+						early = rt.Pos
+					}
+				})
+				at := posStr(g.co.Fset, fi.Decl.Pos())
+				if early != token.NoPos {
+					at = posStr(g.co.Fset, early)
+				}
+				c.Ob("collection-reader-prepares-destination-on-every-success-path/"+role, name, prepared && early == token.NoPos, at, kind+" destination is re-sliced/reallocated/cleared before any return without error")
 			}
 		}
 	})
